@@ -673,8 +673,8 @@ SetMax(S) == CHOOSE x \\in S : \\A y \\in S : x >= y
 Median(S) == CHOOSE x \\in S : Cardinality({y \\in S : y < x}) = Cardinality(S) \\div 2
 ArgPick(p, n) == LET c == ArgsFor(p) IN
                  IF c = {} THEN {}
-                 ELSE IF n = 1 THEN c                               \* unary functions: every matching value
-                 ELSE IF n = 2 \/ PickK = 3 THEN {SetMin(c), Median(c), SetMax(c)}
+                 ELSE IF n = 1 THEN c                               \\* unary functions: every matching value
+                 ELSE IF n = 2 \\/ PickK = 3 THEN {SetMin(c), Median(c), SetMax(c)}
                  ELSE {Median(c), SetMax(c)}
 RECURSIVE ArgTuples(_, _)
 ArgTuples(ps, n) == IF Len(ps) = 0 THEN {<<>>}
